@@ -136,23 +136,26 @@ fn run_c05(rep: &mut Report) {
     let mut infos = vec![];
     // (A)
     for v in c05::VARIANTS {
+        let t0 = std::time::Instant::now();
         let (st, info) = c05::bfs(v, depth, threads());
-        println!("  C05 bfs {:<44} evals={:<8} states={:<5} {}", v.name(), st.evaluations, st.states, info);
+        println!("  C05 bfs {:<44} evals={:<8} states={:<5} ({:.1}s) {}", v.name(), st.evaluations, st.states, t0.elapsed().as_secs_f64(), info);
         infos.push(info);
         rep.section(&format!("bfs {}", v.name()), st);
     }
     // (C)
     {
+        let t0 = std::time::Instant::now();
         let (st, info) = c05::api(api_depth, &guard::Beat::default());
-        println!("  C05 {:<48} evals={:<8} {}", "TombstoneSet api", st.evaluations, info);
+        println!("  C05 {:<48} evals={:<8} ({:.1}s) {}", "TombstoneSet api", st.evaluations, t0.elapsed().as_secs_f64(), info);
         infos.push(info);
         rep.section("TombstoneSet api", st);
     }
     // (B)
     for v in c05::VARIANTS {
         let k = if v == c05::Variant::Set { k_set } else { k_map };
+        let t0 = std::time::Instant::now();
         let (st, info) = c05::orders(v, k, threads());
-        println!("  C05 orders {:<41} evals={:<8} {}", v.name(), st.evaluations, info);
+        println!("  C05 orders {:<41} evals={:<8} ({:.1}s) {}", v.name(), st.evaluations, t0.elapsed().as_secs_f64(), info);
         infos.push(info);
         rep.section(&format!("orders {}", v.name()), st);
     }
@@ -218,7 +221,7 @@ macro_rules! for_each_spec {
         go!(q, c07::CartBBB(2));
         go!(q, c07::CartVVH(2));
         go!(q, c07::CartHBB(2));
-        go!(q, c07::KeyedHash(2, 2));
+        go!(q, c07::KeyedHash(2, 2, true));
         go!(q, c07::KeyedBTree(2, 2));
         go!(q, c07::PairSpec(2));
         go!(q, c07::PairSpec2(2));
@@ -235,9 +238,9 @@ macro_rules! for_each_spec {
         go!(t, c07::CartBBB(3));
         go!(t, c07::CartVVH(3));
         go!(t, c07::CartHBB(3));
-        go!(t, c07::KeyedHash(3, 2));
-        go!(t, c07::KeyedHash(2, 3));
-        go!(t, c07::KeyedHash(3, 3));
+        go!(t, c07::KeyedHash(3, 2, true));
+        go!(t, c07::KeyedHash(2, 3, true));
+        go!(t, c07::KeyedHash(3, 3, false));
         go!(t, c07::KeyedBTree(3, 2));
         go!(t, c07::KeyedBTree(2, 3));
         go!(t, c07::PairSpec(3));
@@ -259,14 +262,15 @@ macro_rules! for_each_spec {
 fn run_c07(rep: &mut Report) {
     use c07::Bim;
     rep.rule = "one case = one triple (a, delta, b) [left argument] or (a, b, delta) [right argument] over ALL values of the argument types in the stated universe; \
-                non-trivial = delta is not contained in the operand it is merged into and f(delta, other) is not bottom"
+                non-trivial = delta is not contained in the operand it is merged into and f(delta, other) is not bottom. Every triple is enumerated exactly once; the exact \
+                non-trivial count per bimorphism is bounds.bimorphisms[].nontrivial_exact, the hash-set counter distinct_nontrivial is capped at 2048 per shard (memory) and is a lower bound"
         .into();
     rep.explanation = "for every shipped bimorphism (set cartesian product, keyed map bimorphism over it, pair, GHT cartesian product / value product / node-keyed join / by-value wrapper / DeepJoin constructor) \
                        and several backing combinations: f(a ⊔ da, b) == f(a,b) ⊔ f(da,b) and f(a, b ⊔ db) == f(a,b) ⊔ f(a,db), compared with the output lattice's own == (both directions) \
                        and as plain sets of tuples. Map universes include keys holding a bottom (empty) value."
         .into();
     rep.assume("the merges used to form a ⊔ da and f(..) ⊔ f(..) are the crate's own Merge impls (their laws are C01's subject)");
-    rep.assume("thorough tier, GHT and 3x3 keyed maps: domain 3 is applied to one column at a time for GHT tries ((3,2) and (2,3) tuple domains; deep join (2,2,2), (3,2,1), (1,3,2)) because the number of trie values is 2^(product of column domains)");
+    rep.assume("thorough tier: keyed maps with 3 keys x 3 values are enumerated without bottom-valued keys (512 values per argument; bottom-valued keys are covered at 3x2 and 2x3); GHT: domain 3 is applied to one column at a time for GHT tries ((3,2) and (2,3) tuple domains; deep join (2,2,2), (3,2,1), (1,3,2)) because the number of trie values is 2^(product of column domains)");
     rep.bound("domain", if rep.thorough() { 3 } else { 2 });
     let thorough = rep.thorough();
     let mut infos = vec![];
@@ -275,8 +279,7 @@ fn run_c07(rep: &mut Report) {
         let (st, mut info) = c07::run_spec(s.clone(), threads());
         info["wall_s"] = json!(t0.elapsed().as_secs_f64());
         info["distinct_outputs"] = json!(st.outcomes.len());
-        info["nontrivial"] = json!(st.distinct.len());
-        println!("  C07 {:<100} triples={:<10} outputs={:<5} nontrivial={:<9} ({:.1}s)", s.name(), st.evaluations, st.outcomes.len(), st.distinct.len(), t0.elapsed().as_secs_f64());
+        println!("  C07 {:<100} triples={:<10} outputs={:<6} nontrivial={:<10} ({:.1}s)", s.name(), st.evaluations, st.outcomes.len(), info["nontrivial_exact"], t0.elapsed().as_secs_f64());
         infos.push(info);
         rep.section(&s.name(), st);
     });
